@@ -24,7 +24,7 @@ def gen(rng: random.Random, tier: str):
             supplied = rng.sample(pool, rng.randint(0, len(pool))) if rng.random() < 0.4 else None
             queries.append({"kind": kind, "user": u, "hist": hist, "supplied": supplied, "via_op": rng.random() < 0.5})
         yield {"rows": rows, "base": base, "cfg_n": rng.choice([-1, 1, 3, 10, None]), "run_n": rng.choice([None, None, -1, 0, 1, 2, 5, 50]), "queries": queries,
-               "predicts": rng.random() < 0.4}
+               "predicts": rng.random() < 0.4, "pretrain": rng.random() < 0.3}
 
 def run(case: dict, lean: Lean) -> Outcome:
     import pandas as pd
@@ -37,7 +37,13 @@ def run(case: dict, lean: Lean) -> Outcome:
     V = [int(x) for x in ds.items.ids()]; users = [int(u) for u in ds.users.ids()]
     base = {int(i): v for i, v in case["base"]}
     cfg_n, run_n = case["cfg_n"], case["run_n"]
-    pipe = topn_pipeline(TableScorer(base), n=cfg_n if cfg_n is not None else -1); pipe.train(ds)
+    pipe = topn_pipeline(TableScorer(base), n=cfg_n if cfg_n is not None else -1)
+    if case.get("pretrain") and len(case["rows"]) >= 2:
+        # the pipeline is first trained on an earlier snapshot (every other record) and then trained again, with the default options, on
+        # the data the expectations below refer to: what it recommends afterwards is a matter of the data it was last trained on
+        early = case["rows"][::2]
+        pipe.train(from_interactions_df(pd.DataFrame(early, columns=["user_id", "item_id"])))
+    pipe.train(ds)
     trainrows = [[u, [int(x) for x in ds.user_row(u).ids()]] for u in users]
     corr = True; spec = True; classes = set(); detail = []; key = None; other_fail = False
     for qd in case["queries"]:
@@ -60,6 +66,7 @@ def run(case: dict, lean: Lean) -> Outcome:
         ok = real == modf and ordered
         detail.append({"query": qd, "impl": real if isinstance(real, str) else [[i, None if v is None else str(v)] for i, v in real], "model": mod})
         classes.add("query:" + kind)
+        if case.get("pretrain"): classes.add("pipeline trained before on an earlier snapshot")
         if u == 0: classes.add("user identifier 0")
         if supplied is not None: classes.add("supplied candidates")
         if supplied is not None and set(supplied) & set(hist): classes.add("supplied includes seen item")
